@@ -1,1 +1,83 @@
-/-! Property theorems for C05 (stub: none yet). -/
+import TxdbusModel.Proofs.Wire.Cost
+/-!
+Property C05 - malformed or hostile message bytes are rejected in bounded time.
+
+The theorems are about the cost model `Wire/Cost.lean` of `marshal.unmarshal` / the `unmarshal_*` functions /
+`message.parseMessage` instantiated with the tables of the current source (`Gen/C05Wire.lean`: alignments, kind
+and size of every `unmarshallers` entry, `_headerFormat`, `_mtype`, the header code of `signature`), for EVERY
+signature string (balanced or not, known codes or not, any length), every data, offset and byte order.
+
+`steps` counts the invocations of entries of `marshal.unmarshallers` (what the harness counts on the real code).
+Fuel bounds the longest chain of nested / consecutive calls; `unmarshal_fuel_adequate` says the decoder terminates
+(and how deep the chain can get), `unmarshal_steps_linear` that its work is at most
+`|sig| + (max |sig| 255 + 2) * (bytes from off) + 1` invocations: linear in the data length, the factor being the
+longest signature in play (the caller's, or a variant's: at most 255 by its one-byte length).
+What the tables have to satisfy is `Tables.Good` (every fixed-size reader reads and reports at least one byte;
+struct and dict entry are 8-aligned), re-proved by `decide` from the generated tables: `tables_good`.
+-/
+open Txdbus Txdbus.Cost
+
+namespace Txdbus.C05
+
+/-- The tables extracted from the current source satisfy what the proofs need. -/
+theorem tables_good : genTables.Good := genTables_good
+
+/-- Termination, with an explicit bound: `2*|sig| + 2*|data| + 2` units of fuel (or more) are always enough. -/
+theorem unmarshal_fuel_adequate (sig : List Char) (data : List UInt8) (off : Nat) (le : Bool) (fuel : Nat)
+    (hf : fuelFor sig data ≤ fuel) :
+    (unmarshal genTables true fuel sig data off le).st ≠ .outOfFuel :=
+  fuel_adequate_gen genTables genTables_good sig data off le fuel hf
+
+/-- Work is linear in the data length: whatever the outcome (value or exception), the number of unmarshaller
+invocations is at most `|sig| + (max |sig| 255 + 2) * (|data| - off) + 1`. -/
+theorem unmarshal_steps_linear (sig : List Char) (data : List UInt8) (off : Nat) (le : Bool) (fuel : Nat)
+    (hne : (unmarshal genTables true fuel sig data off le).st ≠ .outOfFuel) :
+    (unmarshal genTables true fuel sig data off le).steps ≤
+      sig.length + (max sig.length 255 + 2) * (data.length - off) + 1 :=
+  steps_linear_gen genTables genTables_good sig data off le fuel hne
+
+/-- `parseMessage` of the repaired code (signature header field: a `str` of at most 255 characters) terminates
+with `2*255 + 2*|data| + 2` units of fuel and performs at most `266 + 257 * |data| + 2` invocations
+(header signature `yyyyuua(yv)`: 11 characters). -/
+theorem parseMessage_total (data : List UInt8) (fuel : Nat)
+    (hf : parseFuel Gen.C05Wire.headerFormat data ≤ fuel) :
+    (parseMessage genTables Gen.C05Wire.headerFormat Gen.C05Wire.mtypeKeys Gen.C05Wire.signatureCode true fuel data).st
+        ≠ .outOfFuel ∧
+    (parseMessage genTables Gen.C05Wire.headerFormat Gen.C05Wire.mtypeKeys Gen.C05Wire.signatureCode true fuel data).steps
+        ≤ Gen.C05Wire.headerFormat.length + 255 + (max Gen.C05Wire.headerFormat.length 255 + 2) * data.length + 2 :=
+  parseMessage_gen genTables genTables_good _ _ _ data fuel hf
+
+/-- The decoded value never has more nodes than invocations were made. -/
+theorem result_size_bounded (sig : List Char) (data : List UInt8) (off : Nat) (le : Bool) (fuel : Nat) :
+    (unmarshal genTables true fuel sig data off le).size ≤ (unmarshal genTables true fuel sig data off le).steps :=
+  size_le_steps_gen genTables genTables_good sig data off le fuel
+
+/-- Witness (F1, repaired by commit 635620f): with the array loop as it was - no zero-length-element check -
+`unmarshal('a()', data)` runs out of EVERY fuel as soon as the array length word is not zero. -/
+theorem prefix_array_loop_never_terminates (data : List UInt8) (le : Bool) (h4 : 4 ≤ data.length)
+    (hw : uval le (slice data 0 4) ≠ 0) (n : Nat) :
+    (unmarshal genTables false n ['a', '(', ')'] data 0 le).st = .outOfFuel :=
+  prefix_array_unit data le h4 hw n
+
+/-! The hypotheses are satisfiable and the statements are about non-trivial runs. -/
+
+/-- `fuelFor` itself is an admissible fuel; the F1 exemplar is now rejected with an exception after 2 invocations. -/
+example : (unmarshal genTables true (fuelFor ['a', '(', ')'] [8, 0, 0, 0, 0, 0, 0, 0, 0, 0, 0, 0])
+    ['a', '(', ')'] [8, 0, 0, 0, 0, 0, 0, 0, 0, 0, 0, 0] 0 true).st = .err .marshalling := by decide +kernel
+
+/-- ... while the loop before the repair, on the same input, runs out of fuel (instance of the witness). -/
+example : (unmarshal genTables false 1000 ['a', '(', ')'] [8, 0, 0, 0, 0, 0, 0, 0, 0, 0, 0, 0] 0 true).st = .outOfFuel :=
+  prefix_array_loop_never_terminates _ _ (by decide) (by decide) 1000
+
+/-- a valid array of two bytes inside a struct: value, 4 invocations, 6 bytes consumed. -/
+example : let r := unmarshal genTables true 100 ['(', 'a', 'y', ')'] [2, 0, 0, 0, 7, 9] 0 true
+    r.st = .ok ∧ r.steps = 4 ∧ r.off = 6 ∧ r.size = 4 := by decide +kernel
+
+end Txdbus.C05
+
+#print axioms Txdbus.C05.tables_good
+#print axioms Txdbus.C05.unmarshal_fuel_adequate
+#print axioms Txdbus.C05.unmarshal_steps_linear
+#print axioms Txdbus.C05.parseMessage_total
+#print axioms Txdbus.C05.result_size_bounded
+#print axioms Txdbus.C05.prefix_array_loop_never_terminates
